@@ -203,6 +203,70 @@ def run_boundary(ctx, items):
     ctx.sample({'boundary_case': lines[0][:160], 'model': mouts[0][:80]})
 
 
+def run_boundary_compressed(ctx, items):
+    """The same boundary / half-way user values, several per element, as the subsets of ONE compressed message (differing
+    values: neither the all-equal nor the all-missing shortcut): every value must read back within half a unit, exactly
+    as when the same subsets are encoded uncompressed, and the bits must be those of the extracted EncodeC."""
+    rng = ctx.rng
+    groups = {}
+    for ids, v, meta in items:
+        if meta['s'] != 0 and meta['w'] <= 50:
+            groups.setdefault(tuple(ids), []).append((v, meta))
+    lines, metas = [], []
+    for ids, vm in groups.items():
+        for _ in range(3):
+            k = rng.choice([2, 3, 4])
+            if len(vm) < k:
+                continue
+            pick = rng.sample(vm, k)
+            w, sc, r = pick[0][1]['w'], pick[0][1]['s'], pick[0][1]['r']
+            vals = []
+            for v, _ in pick:
+                scaled = Fraction(v) * (Fraction(10) ** sc if sc >= 0 else 1 / Fraction(10) ** (-sc))
+                if Fraction(r) + 1 < scaled < Fraction(2 ** w - 2 + r) - 1:       # representable with room: never refused
+                    vals.append(v)
+            if len(vals) < 2 or len(set(vals)) < 2:
+                continue
+            toks = B.template_tokens(B.template_from_ids(list(ids), 33))
+            lines.append('encc %s %s' % (B.subsets_to_model([[v] for v in vals]), toks))
+            metas.append((list(ids), vals, pick[0][1]))
+    mouts = lib.run_model_sharded(lines) if lines else []
+    for (ids, vals, meta), line, mo in zip(metas, lines, mouts):
+        w, sc, r = meta['w'], meta['s'], meta['r']
+        case = {'ids': ids, 'values': [B.python_value_to_model(v) for v in vals], 'compressed': True, 'w': w, 's': sc, 'r': r}
+        ctx.count(line, True)
+        ctx.dist['boundary-compressed'] += 1
+        try:
+            with lib.time_limit(20):
+                bc = B.encode_message(ids, [[v] for v in vals], compressed=True).serialized_bytes
+                bu = B.encode_message(ids, [[v] for v in vals], compressed=False).serialized_bytes
+            _, dc, _, _ = B.decode_impl(bc)
+            _, du, _, _ = B.decode_impl(bu)
+        except Exception as ex:
+            ctx.violation({'kind': 'C03-compressed-boundary', 'case': case, 'error': lib.err_code(ex)},
+                          'ids=%s values=%r: representable off-grid values refused or not decodable when compressed' % (ids, vals))
+            continue
+        unit = Fraction(1, 2) / (Fraction(10) ** sc) if sc >= 0 else Fraction(1, 2) * Fraction(10) ** (-sc)
+        for j, v in enumerate(vals):
+            d, u = dc[j][0], du[j][0]
+            q = Fraction(v)
+            if d is None or abs(Fraction(d) - q) > unit * (1 + Fraction(1, 10 ** 9)) + abs(q) * Fraction(1, 2 ** 51):
+                ctx.violation({'kind': 'C03-quantisation-compressed', 'case': case, 'subset': j, 'read_back': repr(d)},
+                              'ids=%s compressed: %r read back as %r, more than half a unit away' % (ids, v, d))
+                break
+            if d != u:
+                ctx.violation({'kind': 'C03-compressed-differs-from-uncompressed', 'case': case, 'subset': j,
+                               'compressed': repr(d), 'uncompressed': repr(u)},
+                              'ids=%s: %r reads back as %r compressed and %r uncompressed' % (ids, v, d, u))
+                break
+        else:
+            off, n = B.data_section_bits(bc)
+            c = {'impl_enc': ('ok', bc[off:off + n].hex(), 8 * n, bc), 'model_enc': mo, 'edition': 4}
+            eq, detail = P.compare_encode(c)
+            if not eq:
+                ctx.compare(case, 'impl', 'model', kind='C03-compressed-boundary-bits', holds=lambda: True, extra={'detail': detail})
+
+
 def pow10_probe(ctx):
     """Assumption check: CPython's 10 ** s for negative s is the correctly rounded
     1/10^|s| that Float53.pow10_double computes."""
@@ -309,7 +373,9 @@ def run(ctx):
             for f in c['features']:
                 ctx.dist[f] += 1
     ghost_check(ctx, cases)
-    run_boundary(ctx, boundary_cases(ctx, ctx.n(120, 2500)))
+    bitems = boundary_cases(ctx, ctx.n(120, 2500))
+    run_boundary(ctx, bitems)
+    run_boundary_compressed(ctx, bitems)
     fixpoint_checks(ctx, cases[:ctx.n(120, 1500)])
     files = sorted(glob.glob(os.path.join(lib.REPO, 'tests', 'data', '*.bufr')))
     if not ctx.quick:
@@ -329,6 +395,20 @@ def run(ctx):
 
 def replay(ctx, rec):
     c = rec['case']
+    if 'values' in c and c.get('compressed'):
+        # one compressed boundary message: re-run exactly these subsets
+        vals = [B.model_value_to_python(t) for t in c['values']]
+        meta = {'w': c['w'], 's': c['s'], 'r': c['r']}
+
+        class _R:                                  # deterministic "choice": all the values, in order
+            def choice(self, l): return len(vals) if len(vals) in l else l[-1]
+            def sample(self, l, k): return l[:k]
+        old_rng, ctx.rng = ctx.rng, _R()
+        try:
+            run_boundary_compressed(ctx, [(c['ids'], v, meta) for v in vals])
+        finally:
+            ctx.rng = old_rng
+        return {'violations': len(ctx.violations)}
     if 'value' in c:
         v = B.model_value_to_python(c['value'])
         run_boundary(ctx, [(c['ids'], v, {'w': c['w'], 's': c['s'], 'r': c['r']})])
